@@ -22,6 +22,7 @@ structure Case where
   boot : Bool := true                 -- the start-up re-arm has not happened yet
   budget : List (Nat × Nat) := []     -- completed, unprocessed injections → own steps the daemon has left (C16_bounded)
   nsnap : Nat := 0
+  prev : Option (Nq.SelPrep.Snap × Bool × Bool) := none   -- previous snapshot of this incarnation, FIFO readable then?, FIFO watched then?
 
 structure D where
   st : Stats := {}
@@ -231,7 +232,24 @@ def handle (d : D) (line : String) : IO D := do
         if d.st.oracle < 20 then IO.println s!"ORACLE {d.c.hdr} select#{d.c.nsnap} why={why} snap: {" ".intercalate rest}"
         d := { d with st := { d.st with oracle := d.st.oracle + 1 } }
       | none => pure ()
+      -- the todo_do guard of `bodyActs` on the implementation (C16_early_return_acts for the FIFO): the previous select was
+      -- bound to report the FIFO readable, no scan was open and exit was not requested => a scan has been started by now
+      -- (skipped for scenarios with an injected system-call fault: a failing opendir legitimately postpones the scan)
+      match d.c.prev with
+      | some (ps, true, true) =>
+        let faulty := (d.c.hdr.splitOn "fault=").length > 1
+        if !faulty && !ps.exitasap && !ps.tododir && Nq.SelPrep.todoDoActs ps (fun _ => true) &&
+            !(s.tododir || s.nexttodorun != ps.nexttodorun || s.exitasap) then
+          if d.st.oracle < 20 then IO.println s!"ORACLE {d.c.hdr} select#{d.c.nsnap} why=trigger_was_readable_and_watched_but_todo_do_started_no_scan snap: {" ".intercalate rest}"
+          d := { d with st := { d.st with oracle := d.st.oracle + 1 } }
+        else d := { d with st := d.st.bump "snap_pull_followed_by_scan" }
+      | _ => pure ()
+      d := { d with c := { d.c with prev := some (s, kvOf rest "tready" == "1", rf.contains "t") } }
       return d
+  | "X" :: "start" :: _ => return { d with c := { d.c with prev := none } }      -- a new incarnation of the daemon
+  | "X" :: "select-storm" :: rest =>
+    IO.println s!"ORACLE {d.c.hdr} why=busy_loop:the_daemon_does_not_stop_calling_select {" ".intercalate rest}"
+    return { d with st := { d.st with oracle := d.st.oracle + 1 } }
   | "X" :: "sleeping-with-unprocessed-todo" :: rest =>
     IO.println s!"ORACLE {d.c.hdr} why=daemon_sleeps_with_a_completed_injection_unprocessed {" ".intercalate rest}"
     return { d with st := { d.st with oracle := d.st.oracle + 1 } }
